@@ -265,3 +265,129 @@ META = dict(
          'the bounded harness only.',
     assumptions=[sym.A_REAL],
     explanation='')
+
+
+# ---------------------------------------------------------------------------
+# bounded stand-in: real val2idx / time2idx vs brute force (covers dtypes, exact, datetime front-ends)
+# ---------------------------------------------------------------------------
+
+def bounded(tier, seed):
+    from rtc import harness as H
+    import numpy as np
+    import warnings
+    from datetime import datetime, timedelta, timezone
+    P = H.real()
+    run = H.Run('C16', tier, seed, budget_s=60 if tier == 'quick' else 400)
+    coords = [[10, 20, 30, 40], [1, 2, 4, 8, 16], [0, 1], [0, 100, 200, 300, 400, 500], [5, 6, 8, 9, 13, 14]]
+    if tier != 'quick':
+        coords += [list(run.nprng.integers(1, 5, n).cumsum()) for n in (3, 4, 6)]
+
+    def edges_of(x):
+        d = np.diff(x) / 2
+        if (d == d[0]).all():
+            return np.concatenate([[x[0] - d[0]], x[1:] - d, [x[-1] + d[-1]]])
+        return np.concatenate([[x[0]], x[1:] - d, [x[-1]]])
+    for base in coords:
+        for sgn in (1, -1):
+            for dt in ('f8', 'f4', 'i4'):
+                x = np.array(base[::sgn], dtype=dt)
+                xd = x.astype('d')
+                for bnds in (None, '1d', 'nx2'):
+                    e = edges_of(xd)
+                    f = P.PseudoNetCDFFile()
+                    f.createDimension('x', x.size)
+                    f.createVariable('x', dt, ('x',), values=x.copy())
+                    if bnds == '1d':
+                        f.createDimension('xe', x.size + 1)
+                        f.createVariable('x_bounds', 'd', ('xe',), values=e.copy())
+                    elif bnds == 'nx2':
+                        f.createDimension('nv', 2)
+                        f.createVariable('x_bounds', 'd', ('x', 'nv'), values=np.array([e[:-1], e[1:]]).T.copy())
+                    eps = np.abs(np.diff(e)).min() * 1e-6
+                    qs = np.concatenate([xd, e, (e[1:] + e[:-1]) / 2, e + eps, e - eps, (xd[1:] * 3 + xd[:-1]) / 4,
+                                         [e.min() - 3, e.max() + 3]])
+                    for method in ('nearest', 'bounds', 'exact'):
+                        sig = (base, sgn, dt, bnds, method)
+
+                        def t(method=method, f=f, xd=xd, e=e, qs=qs, x=x):
+                            out = np.ma.asarray(f.val2idx('x', qs, method=method, bounds='ignore'))
+                            if not np.array_equal(np.asarray(f.variables['x'][:]), x):
+                                return 'coordinate modified'
+                            msk = np.ma.getmaskarray(out)
+                            for q, r, m in zip(qs, out.filled(-9), msk):
+                                lo, hi = (e.min(), e.max()) if method == 'bounds' else (xd.min(), xd.max())
+                                inr = lo <= q <= hi
+                                if method == 'exact':
+                                    if (q in xd) != (not m):
+                                        return 'exact: query %r masked=%s' % (q, m)
+                                    if not m and xd[r] != q:
+                                        return 'exact: query %r -> %d (%r)' % (q, r, xd[r])
+                                    continue
+                                if not inr:
+                                    continue
+                                if m:
+                                    return '%s: in-range query %r masked' % (method, q)
+                                if not 0 <= r < xd.size:
+                                    return '%s: query %r -> index %d' % (method, q, r)
+                                if method == 'nearest':
+                                    if abs(xd[r] - q) > np.abs(xd - q).min() * (1 + 1e-12) + 1e-300:
+                                        return 'nearest: query %r -> %d (x=%r), nearest is %d' % (q, r, xd[r], int(np.abs(xd - q).argmin()))
+                                else:
+                                    a, b = sorted((e[r], e[r + 1]))
+                                    if not a <= q <= b:
+                                        return 'bounds: query %r -> cell %d = [%r, %r]' % (q, r, e[r], e[r + 1])
+                            return None
+                        run.case('C16:val2idx:%s,%s,%s,bounds-var=%s' % (method, 'asc' if sgn > 0 else 'desc', dt, bnds), sig, t)
+                    # out-of-range handling as requested
+                    qout = np.array([e.min() - 5.0, xd[0], e.max() + 5.0])
+
+                    def t_err(f=f, qout=qout):
+                        try:
+                            f.val2idx('x', qout, method='nearest', bounds='error')
+                        except ValueError:
+                            return None
+                        return "bounds='error' did not reject an out-of-range value"
+                    run.case('C16:val2idx:out-of-range rejected', (base, sgn, dt, bnds), t_err)
+
+                    def t_mask(f=f, qout=qout):
+                        out = f.val2idx('x', qout, method='nearest', bounds='ignore', left=np.nan, right=np.nan, clean='mask')
+                        m = np.ma.getmaskarray(out)
+                        if not (m[0] and m[2] and not m[1]):
+                            return 'left/right=nan, clean=mask: masks %r' % m.tolist()
+                        return None
+                    run.case('C16:val2idx:out-of-range masked', (base, sgn, dt, bnds), t_mask)
+    # datetime front-ends
+    for step_h, n, tdt in ((1, 6, 'f8'), (24, 4, 'f8'), (1, 6, 'i4'), (3, 5, 'f4')):
+        f = P.PseudoNetCDFFile()
+        f.createDimension('time', n)
+        v = f.createVariable('time', tdt, ('time',), values=(np.arange(n) * step_h).astype(tdt))
+        v.units = 'hours since 2001-02-27 00:00:00+0000'
+        ref = datetime(2001, 2, 27, tzinfo=timezone.utc)
+        times = [ref + timedelta(hours=step_h * i) for i in range(n)]
+
+        def t_time():
+            idx = f.time2idx(times, dim='time')
+            if not np.array_equal(np.asarray(idx), np.arange(n)):
+                return 'time2idx(getTimes()) = %r' % (np.asarray(idx).tolist(),)
+            q = [ref + timedelta(hours=step_h * i + 0.4 * step_h) for i in range(n - 1)] + \
+                [ref + timedelta(hours=step_h * i + 0.6 * step_h) for i in range(n - 1)]
+            idx = np.asarray(f.time2idx(q, dim='time'))
+            exp = np.concatenate([np.arange(n - 1), np.arange(1, n)])
+            if not np.array_equal(idx, exp):
+                return 'time2idx at 0.4/0.6 of a step: %r expected %r' % (idx.tolist(), exp.tolist())
+            got = f.getTimes()
+            if [t.replace(tzinfo=timezone.utc) for t in got] != times:
+                return 'getTimes differs'
+            num = f.date2num(times, 'time')
+            if not np.allclose(num, np.arange(n) * step_h):
+                return 'date2num(getTimes()) = %r' % (num,)
+            return None
+        run.case('C16:time2idx/date2num', (step_h, n, tdt), t_time)
+    return run.result(
+        rule='real val2idx vs brute-force search: coordinates x directions x dtypes(f8,f4,i4) x bounds representations x methods; queries at every '
+             'centre, edge, mid-cell, +-1e-6 cell around every edge, quarter points and beyond both ends; time2idx/date2num on hourly/daily axes',
+        bound='coordinates of length 2-6 (quick: 5 shapes), 3 dtypes, 3 bounds representations, 3 methods')
+
+
+def bounded_replay(p):
+    return False, p.get('what')
